@@ -485,3 +485,84 @@ def _evaluate_refine(t):
 def set_is_(a, pred):
     e = z3.Int("e!q")
     return z3.ForAll([e], z3.Select(a, e) == pred(e))
+
+
+# ----------------------------------------------------------------------------------------------
+# DecoupledGP.evaluating: every design is a candidate in every round (no elimination); the data flow is the same as
+# PaVeBaPartialGP's, with the Thompson-entropy acquisition built on the algorithm's own model, order and costs.
+# ----------------------------------------------------------------------------------------------
+@task("C06", "DecoupledGP.evaluating")
+def _decoupled_eval(t):
+    from pyvc.harness import cls_ref, InArr, InOrder
+    from pyvc.symexec import find_obj
+    DEC = "vopy/algorithms/decoupled.py"
+    N, d, m, q = 3, 2, 2, 2
+    t.mode = "N=%d designs, d=%d, m=%d, batch %d; acquisition / optimiser / problem / model by contract (recorded)" % (N, d, m, q)
+    pts = t.inp("points", InArr("pts", (N, d)))
+    costs = t.inp("costs", InArr("cost", (m,)))
+    CS = t.inputs["costs"].snapshot
+    order = t.inp("order", InOrder("o", 2, m))
+    calls = []
+    cand = L.fresh_array("cand", (q, d))
+    acqv = L.fresh_array("acqv", (q,))
+    e0, e1 = z3.Ints("evidx0 evidx1")
+    t.assume(e0 >= 0, e0 < m, e1 >= 0, e1 < m)
+    eidx = L.mk([e0, e1], (q,), "i")
+    obs = L.fresh_array("obs", (q,))
+
+    class Rec:
+        def __init__(self, name):
+            self.name = name
+
+        def getattr(self, ex, st, attr):
+            return RecM(self, attr)
+
+        def clone(self, memo):
+            return self
+
+    class RecM:
+        def __init__(self, o, attr):
+            self.o, self.attr = o, attr
+
+        def call(self, ex, st, args, kwargs, node):
+            calls.append((self.o.name, self.attr, list(args), dict(kwargs)))
+            return obs if (self.o.name, self.attr) == ("problem", "evaluate") else None
+
+        def clone(self, memo):
+            return self
+    model, problem = Rec("model"), Rec("problem")
+    acqs = []
+
+    def c_acq(ex, st, cls, args, kwargs, node):
+        a_ = ("acq", list(args), dict(kwargs))
+        acqs.append(a_)
+        return [(st, Opaque("Acq", z3.Const("acq!%d" % V.fresh_id(), z3.DeclareSort("Acq"))))]
+    t.contracts[AQ + "::ThompsonEntropyDecoupledAcquisition.__new__"] = c_acq
+
+    def c_opt(ex, st, sv, args, kwargs, node):
+        calls.append(("optimiser", "optimize_decoupled_acqf_discrete", list(args), dict(kwargs)))
+        return [(st, (cand, acqv, eidx))]
+    t.contracts[AQ + "::optimize_decoupled_acqf_discrete"] = c_opt
+    sc0, tc0 = z3.Int("sample_count0"), z3.Real("total_cost0")
+    obj = SObj(cls_ref(DEC, "DecoupledGP"), {"model": model, "problem": problem, "order": order, "costs": costs, "batch_size": q, "points": pts,
+                                             "sample_count": sc0, "total_cost": tc0})
+    paths = t.run(DEC, "DecoupledGP.evaluating", [], self_val=obj)
+    t.must_fail()
+    t.no_raise(paths)
+    if len(paths) != 1:
+        raise Unsupported("the call log of this task is kept per run: a forking body is outside its reach")
+
+    def goal(p):
+        o = find_obj(p.st, obj.oid)
+        names = [(c[0], c[1]) for c in calls]
+        if names != [("optimiser", "optimize_decoupled_acqf_discrete"), ("problem", "evaluate"), ("model", "add_sample"), ("model", "update")] or len(acqs) != 1:
+            return False
+        oc, ev, ad = calls[0], calls[1], calls[2]
+        aa, ak = acqs[0][1], acqs[0][2]
+        ok = (aa[0] is model if aa else ak.get("model") is model) and ak.get("order", aa[1] if len(aa) > 1 else None) is order and ak.get("costs", aa[2] if len(aa) > 2 else None) is costs
+        ok = ok and oc[2][1] == q and oc[3].get("choices", oc[2][2] if len(oc[2]) > 2 else None) is pts
+        ok = ok and ev[2][0] is cand and ev[2][1] is eidx
+        ok = ok and ad[2][0] is cand and ad[2][1] is obs and (ad[2][2] if len(ad[2]) > 2 else ad[3].get("dim_index")) is eidx
+        sel = lambda e: z3.If(e == 0, V.R(CS.a[0]), V.R(CS.a[1]))
+        return z3.And(z3.BoolVal(bool(ok)), V.Z(o.fields["sample_count"]) == sc0 + q, V.R(o.fields["total_cost"]) == tc0 + sel(e0) + sel(e1))
+    t.prove_paths("own_model_order_costs_all_points_offered_batch_requested_observations_paired_and_counted_cost_summed_model_updated", paths, goal)
